@@ -277,12 +277,13 @@ func (w *worker[T, JobType]) processNextJob() error {
 		return ErrFailedToCastJob
 	}
 
-	if j.IsClosed() {
+	// a job cancelled while it was pending is dropped; otherwise it is claimed
+	// atomically, so that a concurrent Close either wins or gets ErrJobProcessing
+	if !j.markProcessing() {
 		return nil
 	}
 
 	w.curProcessing.Add(1)
-	j.changeStatus(processing)
 	j.setAckId(ackId)
 
 	// then job will be process by the processSingleJob function inside spawnWorker
